@@ -348,10 +348,21 @@ func (d *deepView) resolve(v ssa.Value, fr *frame) dval {
 			}
 			var stored []ssa.Value
 			var sfr *frame
+			nils := 0
 			d.eachStoreTo(a, cellD.fr, func(st *ssa.Store, f *frame) {
+				// a pointer variable reset to nil on failure paths keeps one identity
+				if ir.IsNilConst(st.Val) {
+					nils++
+					return
+				}
+				// written back to itself at a return (named results)
+				if lu, isLd := st.Val.(*ssa.UnOp); isLd && lu.Op == token.MUL && lu.X == ssa.Value(a) {
+					return
+				}
 				stored = append(stored, st.Val)
 				sfr = f
 			})
+			_ = nils
 			if len(stored) != 1 {
 				return dval{v, fr}
 			}
